@@ -203,6 +203,58 @@ def check(an, rep, tier):
     _RP.check_param_forwarding(prog, rep, callers=_callers)
     from .. import rules_proto as _RPZ
     _RPZ.check_none_vs_zero(prog, rep, modules={'sample', 'sample_func'})
+    # --- P-marginal: the marginal vectors of ``sample`` integrate a core
+    # over its mode axis by SUMMATION.  Another reduction kind over that
+    # axis (mean, max, prod, ...) is not the marginal: a mean rescales it by
+    # 1 / n per mode, which the normalisation hides everywhere except where
+    # the absolute noise ``unsert`` is added to the first-mode weights (the
+    # draw is then no longer proportional to entry + documented noise).
+    # Three-valued: sum = ok; another reduction of a core over axis 1 that
+    # is not rescaled (no multiplication in the statement) = violation;
+    # other spellings (einsum, ones-contraction) are not matched (no floor).
+    _fs = prog.func('sample.sample')
+    _RED_OK = {'sum', 'nansum'}
+    _RED_BAD = {'mean', 'average', 'nanmean', 'max', 'amax', 'min', 'amin',
+                'prod', 'median', 'std', 'var', 'cumsum'}
+    if _fs is not None:
+        for _as in ast.walk(_fs.node):
+            if not (isinstance(_as, ast.Assign) and
+                    isinstance(_as.targets[0], ast.Subscript)):
+                continue
+            for _c in ast.walk(_as.value):
+                if not isinstance(_c, ast.Call):
+                    continue
+                _nm = (_c.func.attr if isinstance(_c.func, ast.Attribute)
+                       else getattr(_c.func, 'id', None))
+                _ax = [k.value for k in _c.keywords if k.arg == 'axis'] + \
+                    list(_c.args[1:2])
+                if _nm not in _RED_OK | _RED_BAD or not (
+                        _ax and isinstance(_ax[0], ast.Constant) and
+                        _ax[0].value == 1):
+                    continue
+                # the reduced operand is a core of the argument tensor
+                _opnd = _c.args[0] if (_c.args and not isinstance(
+                    _c.func, ast.Attribute) or (isinstance(
+                        _c.func, ast.Attribute) and isinstance(
+                        _c.func.value, ast.Name) and _c.func.value.id in
+                    ('np', 'numpy') and _c.args)) else (
+                    _c.func.value if isinstance(_c.func, ast.Attribute)
+                    else None)
+                _p0 = _fs.node.args.args[0].arg
+                if not (isinstance(_opnd, ast.Subscript) and
+                        isinstance(_opnd.value, ast.Name) and
+                        _opnd.value.id == _p0):
+                    continue
+                _scaled = any(isinstance(b, ast.BinOp) and
+                              isinstance(b.op, (ast.Mult, ast.Div))
+                              for b in ast.walk(_as.value))
+                _st3 = 'ok' if _nm in _RED_OK else (
+                    'unknown' if _scaled else 'violation')
+                rep.add('P-marginal', 'sample.sample', 'marginal vector '
+                        'integrates the core over its mode axis by summation',
+                        _st3, '' if _st3 == 'ok' else 'reduction "%s" over '
+                        'the mode axis is not the marginal sum' % _nm,
+                        line=_c.lineno, file=_fs.module.path)
     rep.floor('L-lin', 4, 'contractions with linear operands')
     rep.floor('N-prob', 4, 'choice(p=...) sites')
     rep.floor('S-ret', 8, 'sampler results')
